@@ -12,6 +12,7 @@ EXTENDS VarIntCodec, IOUtils
 
 Obs == JsonDeserialize(IOEnv.TRACE_FILE)
 NoneSet == {}
+NoStreams0 == <<>>
 
 VARIABLE tid
 tvars == <<vars, tid>>
